@@ -15,7 +15,7 @@ ASSUMPTIONS = {
     "A8": "A8 renderer frame: to_serde_struct is an unverified deterministic function of the tree (the contracts stop at the Element tree; the rendered text is outside the verifier)",
     "M": "machine arithmetic is NOT treated as mathematical: every u32/usize operation in the functions under contract carries Verus's overflow obligation (the occurrence counter saturates, D5); int/nat occur only in ghost code",
     "U": "there is no unsafe code in /repo/src (checked by a text scan on every run); the external crates quick_xml, convert_string, log are outside the verifier (A5) and may contain unsafe code",
-    "V": "Verus 0.2026.09.13 + Z3 are trusted; vstd's specifications of Vec, Option, Result, HashMap, slice iterators, String::clone are trusted; termination of spec functions is checked by Verus",
+    "V": "Verus 0.2026.09.13 + Z3 are trusted; vstd's specifications of Vec (incl. remove / insert / push), Option, Result, HashMap, slice iterators (incl. Iterator::find, which get_child's proof rests on), String::clone are trusted; termination of spec functions is checked by Verus",
     "H": "that a caller's sequence of API calls is a sequence of the verified steps (sequential composition) is the only meta-argument left; the inductions over operation sequences, occurrences, nesting depth and extend calls are machine-checked (theorem_c16_all_sequences, theorem_level_occurrences, theorem_deep, lemma_deep_compose, theorem_into/theorem_extend)",
 }
 
